@@ -41,15 +41,24 @@ structure LimEnv.Lawful (L : LimEnv ε) (isLimit : ε → Bool) : Prop where
   time : ∀ site i e, L.time site i = some e → isLimit e = true
 
 /-- the evaluator uses its collection check only to fail with that check's error
-    (`Function(range)`, the aggregate finalisers): with a check it answers what it answers without,
-    or a limit error -/
+    (`Function(range)`, the aggregate finalisers) or — through an `EXISTS { subquery }` — to park a
+    limit error: a parked failure is the unlimited run's parked failure or a limit error, and where
+    nothing is parked the answer is the unlimited run's answer or a limit error -/
 structure Sem.LimitLawful (S : Sem χ ρ ν ε κ α) (coll : String → Nat → Option ε) (isLimit : ε → Bool) : Prop where
-  eval : ∀ e env r, S.eval coll e env r = S.eval (fun _ _ => none) e env r ∨
-    ∃ er, S.eval coll e env r = .error er ∧ isLimit er = true
+  park : ∀ e env r, S.park coll e env r = S.park (fun _ _ => none) e env r ∨
+    ∃ er, S.park coll e env r = some er ∧ isLimit er = true
+  eval : ∀ e env r, S.park coll e env r = none →
+    (S.eval coll e env r = S.eval (fun _ _ => none) e env r ∨
+      ∃ er, S.eval coll e env r = .error er ∧ isLimit er = true)
+  aggPark : ∀ aggs env rows, S.aggPark coll aggs env rows = S.aggPark (fun _ _ => none) aggs env rows ∨
+    ∃ er, S.aggPark coll aggs env rows = some er ∧ isLimit er = true
+  /-- finalising a group without rows evaluates nothing -/
+  aggPark_nil : ∀ aggs env, S.aggPark coll aggs env [] = none
   aggCheck : ∀ aggs env r, S.aggCheck coll aggs env r = S.aggCheck (fun _ _ => none) aggs env r ∨
     ∃ er, S.aggCheck coll aggs env r = .error er ∧ isLimit er = true
-  aggFinal : ∀ gb aggs env rows, S.aggFinal coll gb aggs env rows = S.aggFinal (fun _ _ => none) gb aggs env rows ∨
-    ∃ er, S.aggFinal coll gb aggs env rows = .error er ∧ isLimit er = true
+  aggFinal : ∀ gb aggs env rows, S.aggPark coll aggs env rows = none →
+    (S.aggFinal coll gb aggs env rows = S.aggFinal (fun _ _ => none) gb aggs env rows ∨
+      ∃ er, S.aggFinal coll gb aggs env rows = .error er ∧ isLimit er = true)
 
 /-- query level (C33): complete result (that of the unlimited run) or a limit error -/
 def CompleteOrError (S : Sem χ ρ ν ε κ α) (Q : Quirks) (L : LimEnv ε) (isLimit : ε → Bool)
@@ -93,6 +102,9 @@ structure Sem.PredLawful (S : Sem χ ρ ν ε κ α) (coll : String → Nat → 
   isNull_err : ∀ p env r e, S.eval coll p env r = .error e → S.eval coll (isNullE p) env r = .error e
   isNull_ok : ∀ p env r v, S.eval coll p env r = .ok v →
     ∃ w, S.eval coll (isNullE p) env r = .ok w ∧ S.truth w = (S.truth v).isNull
+  /-- the operand is evaluated exactly once: the same failure (if any) is parked -/
+  not_park : ∀ p env r, S.park coll (notE p) env r = S.park coll p env r
+  isNull_park : ∀ p env r, S.park coll (isNullE p) env r = S.park coll p env r
 
 /-- the result of `… WHERE p` over the rows `rows` (plain filter position): FilterIter over an
     error-free input, collected by the driver -/
